@@ -1,2 +1,143 @@
-def run(ctx, prop, insts, reports):
-    return {}
+"""Thorough tier: (1) mutation self-test - every hand-written one-instance mutant of the
+property (sa/mutants.py) and every confirmed seeded change written against it
+(/verif/seeded/<id>/patch.diff) is applied to a scratch copy of /repo's working tree, facts are
+re-extracted and the property's rules must report something they do not report on the
+unchanged tree; (2) for the panic audits, a second extraction with the release profile
+(overflow checks off) whose remaining Assert terminators must be discharged too.
+Nothing here runs cfdp-rs code; nothing is written to /repo. Results go into the evidence;
+a missed mutant is a weakness of the checker and is reported as such, never as a violation of
+the property on the tree under test."""
+import fcntl
+import json
+import os
+import shutil
+import subprocess
+import time
+
+import engine
+import facts as factsmod
+from mutants import MUTANTS
+
+VERIF = engine.VERIF
+SCRATCH = os.path.join(VERIF, ".cache", "scratch-thorough")
+
+
+def _sync(repo):
+    os.makedirs(SCRATCH, exist_ok=True)
+    subprocess.run(["rsync", "-a", "--delete", "--exclude", "target", "--exclude", ".git", repo.rstrip("/") + "/", SCRATCH + "/"], check=True)
+
+
+def _bad_keys(insts):
+    return {i.full_key() for i in insts if not i.ok}
+
+
+def _run_on_scratch(prop, tier="quick"):
+    f, th = factsmod.extract(repo=SCRATCH, profile="dev", target_tag="thorough")
+    ctx = engine.Ctx(f, th, tier)
+    insts, reports = engine.run_property(ctx, prop)
+    return insts
+
+
+def selftest(prop, repo, base_insts, budget_s=1500):
+    base = _bad_keys(base_insts)
+    out = {"mutants": [], "fired": 0, "total": 0, "skipped": 0, "missed": []}
+    t0 = time.time()
+    os.makedirs(os.path.join(VERIF, ".cache"), exist_ok=True)
+    with open(os.path.join(VERIF, ".cache", "thorough.lock"), "w") as lk:
+        fcntl.flock(lk, fcntl.LOCK_EX)
+        jobs = [("hand:" + m["id"], m) for m in MUTANTS.get(prop, [])]
+        sd = os.path.join(VERIF, "seeded")
+        if os.path.isdir(sd):
+            for d in sorted(os.listdir(sd)):
+                mp = os.path.join(sd, d, "meta.json")
+                if os.path.exists(mp) and json.load(open(mp)).get("property") == prop:
+                    jobs.append(("seeded:" + d, {"patch": os.path.join(sd, d, "patch.diff")}))
+        for name, m in jobs:
+            if time.time() - t0 > budget_s:
+                out["mutants"].append({"id": name, "result": "not run (time budget)"})
+                out["skipped"] += 1
+                continue
+            _sync(repo)
+            rec = {"id": name}
+            if "patch" in m:
+                r = subprocess.run(["patch", "-p1", "--forward", "--batch", "-i", m["patch"]], cwd=SCRATCH, stdout=subprocess.PIPE, stderr=subprocess.STDOUT, text=True)
+                if r.returncode != 0:
+                    rec["result"] = "skipped: patch does not apply to the tree under test"
+                    out["skipped"] += 1
+                    out["mutants"].append(rec)
+                    continue
+            else:
+                p = os.path.join(SCRATCH, m["file"])
+                src = open(p).read() if os.path.exists(p) else ""
+                if src.count(m["old"]) != 1:
+                    rec["result"] = "skipped: anchor text occurs %d times in %s" % (src.count(m["old"]), m["file"])
+                    out["skipped"] += 1
+                    out["mutants"].append(rec)
+                    continue
+                open(p, "w").write(src.replace(m["old"], m["new"]))
+            try:
+                insts = _run_on_scratch(prop)
+            except RuntimeError as e:
+                rec["result"] = "invalid mutant (does not compile): %s" % str(e)[-200:]
+                out["skipped"] += 1
+                out["mutants"].append(rec)
+                continue
+            new = sorted(_bad_keys(insts) - base)
+            out["total"] += 1
+            if new:
+                out["fired"] += 1
+                rec["result"] = "fired"
+                rec["reported"] = new[:4]
+                if m.get("rule") and not any(k.startswith(m["rule"]) for k in new):
+                    rec["note"] = "reported by another rule than the one it targets (%s)" % m["rule"]
+            else:
+                rec["result"] = "MISSED"
+                out["missed"].append(name)
+            out["mutants"].append(rec)
+        _sync(repo)
+    out["wall_s"] = round(time.time() - t0, 1)
+    return out
+
+
+def release_audit(ctx, prop):
+    """Re-run the panic-audit rules on release-profile facts (overflow checks off)."""
+    if ctx.rel_prog is None:
+        return None
+    rel = engine.Ctx.__new__(engine.Ctx)
+    rel.facts = None
+    rel.tree_hash = ctx.tree_hash
+    rel.tier = ctx.tier
+    rel.prog = ctx.rel_prog
+    from df import Mods
+
+    rel.mods = Mods(rel.prog)
+    rel.cache = {}
+    rel.rel_prog = None
+    rel.stats = {}
+    n = bad = 0
+    open_sites = []
+    for r in engine.RULES.get(prop, []):
+        if r.rid not in ("C06-P1", "C11-I2", "C14-P"):
+            continue
+        try:
+            for i in r.fn(rel):
+                n += 1
+                if not i.ok:
+                    bad += 1
+                    open_sites.append(i.full_key())
+        except engine.Anchor as a:
+            open_sites.append("anchor:" + a.what)
+    return {"sites": n, "undischarged": bad, "undischarged_keys": open_sites[:10]}
+
+
+def run(ctx, prop, insts, reports, repo=None):
+    extra = {}
+    repo = repo or factsmod.REPO
+    try:
+        extra["mutation_selftest"] = selftest(prop, repo, insts)
+    except Exception as e:  # the self-test must never turn into a verdict
+        extra["mutation_selftest"] = {"error": repr(e)[:300]}
+    ra = release_audit(ctx, prop)
+    if ra is not None:
+        extra["release_profile_audit"] = ra
+    return extra
